@@ -48,7 +48,7 @@ ORDERS = [(1, "lin"), (2, "lin"), (2, "sq")]
 
 def _sampler_cfgs_all():
     out = []
-    for g in ("shift", "affine", "rot2"):
+    for g in ("shift", "affine", "rot2", "ring"):
         for ns in NS:
             for nb in NB:
                 out.append({"sampler": "mhcustom", "g": g, "nsamples": ns, "nburnout": nb})
@@ -69,10 +69,11 @@ def _sampler_cfgs_B(tier):
     if tier == "quick":
         return [{"sampler": "mhcustom", "g": "rot2", "nsamples": 7, "nburnout": 3},
                 {"sampler": "mhcustom", "g": "affine", "nsamples": 3, "nburnout": 1},
+                {"sampler": "mhcustom", "g": "ring", "nsamples": 7, "nburnout": 1},
                 {"sampler": "dummy1d", "nsamples": 20, "bounds": "inf"},
                 {"sampler": "mh", "nsamples": 7, "nburnout": 3, "step": 1.0, "mseed": 0}]
     out = []
-    for g in ("shift", "affine", "rot2"):
+    for g in ("shift", "affine", "rot2", "ring"):
         for (ns, nb) in ((7, 3), (3, 1), (1, 0), (20, 10)):
             out.append({"sampler": "mhcustom", "g": g, "nsamples": ns, "nburnout": nb})
     for ns, bounds in ((20, "inf"), (5, "fin"), (60, "half")):
@@ -146,7 +147,13 @@ F_VALS = {"a": 0.8, "b": -1.2}
 P_VALS = {"w": 0.9, "q": 0.55}
 
 
+def _fl(x):
+    """integer-valued states (discrete chains of mhcustom) enter the formulas as float64"""
+    return x if x.is_floating_point() else x.to(torch.float64) * 0.25
+
+
 def f_math(fout, x, a, b, linear=False):
+    x = _fl(x)
     xx = (x * x).sum()
     if linear:      # linear in (a, b), no cross term: d f / d theta does not depend on theta
         if fout == "scalar":
@@ -162,6 +169,7 @@ def f_math(fout, x, a, b, linear=False):
 
 
 def logp_math(x, w, q, linear=False):
+    x = _fl(x)
     x2 = x * x
     if linear:      # linear in q (an exponential-family natural parameter)
         return -x2.sum() / (2.0 * w * w) - q * (x2 * x2).sum() / 4.0
@@ -178,6 +186,8 @@ def g_step(name, x):
         return x + 0.125
     if name == "affine":
         return 0.5 * x + 0.75
+    if name == "ring":          # deterministic walk on the integers 0..6 (int64 state)
+        return (x * 3 + 1) % 7
     c, s = math.cos(0.7), math.sin(0.7)
     return torch.stack([c * x[0] - s * x[1], s * x[0] + c * x[1]]) * 0.9 + 0.1
 
@@ -186,6 +196,8 @@ def x0_of(sc):
     if sc["sampler"] == "mhcustom":
         if sc["g"] == "rot2":
             return torch.tensor([1.0, -0.5], dtype=torch.float64)
+        if sc["g"] == "ring":
+            return torch.tensor(2)
         return torch.tensor(-0.5 if sc["g"] == "shift" else 2.0, dtype=torch.float64)
     if sc["sampler"] == "dummy1d":
         return torch.tensor(0.0, dtype=torch.float64)
